@@ -28,7 +28,7 @@ from engine import runpy as vrunpy
 # switch on constructs rope does not model at all, so that their failures stay
 # isolated and are attributed to narrow known findings.
 CORE = {"bind", "use", "global", "nonlocal", "param"}
-TARGETS = {"for", "with", "except", "import", "importfrom", "walrus"}
+TARGETS = {"for", "with", "with2", "except", "import", "importfrom", "walrus"}
 
 GROUPS = {
     # name: constants, per tier (Names, MaxScopes, MaxEv)
@@ -38,6 +38,19 @@ GROUPS = {
     # enough to be replayed completely in the quick tier
     "nest": dict(Kinds={"function", "class"}, Ops={"bind", "use"}, ScopeNames=set(), replay_all=True,
                  quick=({"a"}, 4, 2), thorough=({"a"}, 4, 3)),
+    # layout variants that do not change the scoping: def / class written on one logical line
+    # with the body statement continued over several physical lines, multi-item with
+    "layout": dict(Kinds={"function", "class"}, Ops={"bind", "use", "param", "with", "with2"}, ScopeNames=set(),
+                   one_liners=True, quick=({"a"}, 3, 3), thorough=({"a"}, 4, 3)),
+    # binders and nested definitions written inside compound statements (with without `as`,
+    # for, try/finally, if, while): blocks that are not scopes
+    "blocks": dict(Kinds={"function", "class"}, Ops={"bind", "use", "param", "import", "global"}, ScopeNames={"a"},
+                   Blocks={"none", "with0", "for", "try", "if", "while"},
+                   quick=({"a"}, 2, 3), thorough=({"a"}, 3, 3)),
+    # classes with __init__ and / or __call__: keyword arguments at the construction site
+    # and at the call of the instance
+    "methods": dict(Kinds={"function", "class"}, Ops={"bind", "use", "param", "kwcall"}, ScopeNames=set(),
+                    Roles={"plain", "init", "call"}, quick=({"a"}, 4, 3), thorough=({"a"}, 4, 4)),
     "core2": dict(Kinds={"function", "class"}, Ops=CORE, ScopeNames=set(),
                   quick=({"a", "b"}, 2, 4), thorough=({"a", "b"}, 3, 4)),
     "defnames": dict(Kinds={"function", "class"}, Ops={"bind", "use", "global", "nonlocal", "param"},
@@ -81,6 +94,8 @@ def constants(group, tier, rename=False, fresh_only=True):
         "Names": set(names), "Fresh": {"zz"}, "Kinds": set(g["Kinds"]), "Ops": set(g["Ops"]),
         "ScopeNames": set(g["ScopeNames"]) & set(names), "MaxScopes": max_scopes, "MaxEv": max_ev,
         "Libs": set(g.get("Libs", {"none"})), "ModFresh": {"zm"},
+        "OneLiners": {False, True} if g.get("one_liners") else {False},
+        "Blocks": set(g.get("Blocks", {"none"})), "Roles": set(g.get("Roles", {"plain"})),
         "LibNames": {"lb"} | (set(names) if g.get("lib_named_like_identifier") else set()),
         "DoRename": rename, "FreshOnly": fresh_only,
     }
@@ -196,7 +211,7 @@ class Program:
 DECOYS = ("cmtdecoy", "strdecoy")
 PARAM_OPS = ("posonly", "param", "vararg", "kwonly", "kwarg")
 # binders that store a line-number value into the name at run time
-VALUE_BINDERS = ("bind", "for", "with", "walrus", "matchcap", "param", "posonly", "kwonly", "kwcall", "except")
+VALUE_BINDERS = ("bind", "for", "with", "with2", "walrus", "matchcap", "param", "posonly", "kwonly", "kwcall", "except")
 
 
 # --------------------------------------------------------------------------
@@ -283,6 +298,7 @@ class _Renderer:
     def __init__(self, prog):
         self.p = prog
         self.r = Rendered()
+        self.role_args = {}
 
     # -- line assembly: parts are str | ("id", key, name) | ("line",)
     def emit(self, indent, parts):
@@ -335,40 +351,59 @@ class _Renderer:
                 for i, e in enumerate(decl):
                     parts += ([", "] if i else []) + [self.ident(e)]
                 self.emit(indent, parts)
+        # binders and nested definitions, optionally inside a compound statement (not a scope)
+        blk = p.scopes[s].get("blk", "none")
+        bi = indent
+        if blk != "none":
+            self.emit(indent, [{"with0": "with _cm(0):", "if": "if 1:", "for": "for _j%d in [0]:" % s,
+                                "try": "try:", "while": "while True:"}[blk]])
+            bi = indent + 4
+            n_blk = len(self.r.lines)
         for e in self.evs(s, "bind"):
-            self.emit(indent, [self.ident(e), " = ", ("line",)])
+            self.emit(bi, [self.ident(e), " = ", ("line",)])
         for e in self.evs(s, "annbind"):
-            self.emit(indent, [self.ident(e), ": int"])
+            self.emit(bi, [self.ident(e), ": int"])
         for e in self.evs(s, "import"):
-            self.emit(indent, ["import os as ", self.ident(e)])
+            self.emit(bi, ["import os as ", self.ident(e)])
         for e in self.evs(s, "importfrom"):
-            self.emit(indent, ["from os import sep as ", self.ident(e)])
-        self.lib_imports(s, indent)
+            self.emit(bi, ["from os import sep as ", self.ident(e)])
+        self.lib_imports(s, bi)
         for e in self.evs(s, "for"):
-            self.emit(indent, ["for ", self.ident(e), " in [", ("line",), "]:"])
-            self.emit(indent + 4, ["pass"])
+            self.emit(bi, ["for ", self.ident(e), " in [", ("line",), "]:"])
+            self.emit(bi + 4, ["pass"])
         for e in self.evs(s, "with"):
-            self.emit(indent, ["with _cm(", ("line",), ") as ", self.ident(e), ":"])
-            self.emit(indent + 4, ["pass"])
+            self.emit(bi, ["with _cm(", ("line",), ") as ", self.ident(e), ":"])
+            self.emit(bi + 4, ["pass"])
+        for e in self.evs(s, "with2"):
+            self.emit(bi, ["with _cm(0), _cm(", ("line",), ") as ", self.ident(e), ":"])
+            self.emit(bi + 4, ["pass"])
         for e in self.evs(s, "walrus"):
-            self.emit(indent, ["(", self.ident(e), " := ", ("line",), ")"])
+            self.emit(bi, ["(", self.ident(e), " := ", ("line",), ")"])
         for e in self.evs(s, "matchcap"):
-            self.emit(indent, ["match ", ("line",), ":"])
-            self.emit(indent + 4, ["case ", self.ident(e), ":"])
-            self.emit(indent + 8, ["pass"])
+            self.emit(bi, ["match ", ("line",), ":"])
+            self.emit(bi + 4, ["case ", self.ident(e), ":"])
+            self.emit(bi + 8, ["pass"])
         for e in self.evs(s, "aug"):
-            self.wrapped(indent, [self.ident(e), " += 0"])
+            self.wrapped(bi, [self.ident(e), " += 0"])
         for c in p.children[s]:
             k = p.kind(c)
             if k == "function":
-                self.function(c, indent)
+                self.function(c, bi)
             elif k == "class":
-                self.klass(c, indent)
+                self.klass(c, bi)
             else:
-                self.emit(indent, ["try:"])
-                self.expr_scope(c, indent + 4, "")
-                self.emit(indent, ["except NameError:"])
-                self.emit(indent + 4, ["_u(", ("line",), ", 'NameError')"])
+                self.emit(bi, ["try:"])
+                self.expr_scope(c, bi + 4, "")
+                self.emit(bi, ["except NameError:"])
+                self.emit(bi + 4, ["_u(", ("line",), ", 'NameError')"])
+        if blk != "none":
+            if len(self.r.lines) == n_blk:
+                self.r.lines.pop()            # nothing to put inside: no block
+            elif blk == "try":
+                self.emit(indent, ["finally:"])
+                self.emit(indent + 4, ["pass"])
+            elif blk == "while":
+                self.emit(bi, ["break"])
         for e in self.evs(s, "use"):
             self.use(indent, e, [self.ident(e)])
         for e in self.evs(s, "fuse"):
@@ -513,15 +548,48 @@ class _Renderer:
             return out
         return join(head), join(args + kwargs)
 
+    def one_line_body(self, s, indent, header):
+        """`def f(a): b = [L,` / `    0,` / `][0]`: simple statements on the header's logical
+        line, each continued over three physical lines inside brackets"""
+        binds = self.evs(s, "bind")
+        first = True
+        parts = list(header) + [" "]
+        if not binds:
+            self.r.head[s] = self.emit(indent, parts + ["[0,"])
+            self.emit(indent + 4, ["0,"])
+            self.r.last[s] = self.emit(indent, ["]"])
+            return
+        for i, e in enumerate(binds):
+            parts += [self.ident(e), " = [", ("line",), ","]
+            ln = self.emit(indent, parts)
+            if first:
+                self.r.head[s] = ln
+                first = False
+            self.emit(indent + 4, ["0,"])
+            parts = ["][0]" + ("; " if i + 1 < len(binds) else "")]
+        self.r.last[s] = self.emit(indent, parts)
+
     def function(self, s, indent):
         p = self.p
         sc = p.scopes[s]
         head, args = self.params(s)
         name = self.sname(s)
         nm = ("id", (sc["parent"], "defname", sc["name"], s), name) if sc["name"] != "-" else name
-        self.r.head[s] = self.emit(indent, ["def ", nm, "("] + head + ["):"])
-        self.body(s, indent + 4)
-        self.r.last[s] = len(self.r.lines)
+        role = sc.get("role", "plain")
+        if role != "plain":
+            # __init__ / __call__: called through the class (see klass)
+            mname = {"init": "__init__", "call": "__call__"}[role]
+            self.r.head[s] = self.emit(indent, ["def ", mname, "(self"] + ([", "] + head if head else []) + ["):"])
+            self.body(s, indent + 4)
+            self.r.last[s] = len(self.r.lines)
+            self.role_args[s] = args
+            return
+        if sc.get("one"):
+            self.one_line_body(s, indent, ["def ", nm, "("] + head + ["):"])
+        else:
+            self.r.head[s] = self.emit(indent, ["def ", nm, "("] + head + ["):"])
+            self.body(s, indent + 4)
+            self.r.last[s] = len(self.r.lines)
         cn = ("id", (sc["parent"], "call", sc["name"], s), name) if sc["name"] != "-" else name
         self.r.call_line[s] = self.emit(indent, [cn, "("] + args + [")"])
 
@@ -529,9 +597,23 @@ class _Renderer:
         sc = self.p.scopes[s]
         name = self.sname(s)
         nm = ("id", (sc["parent"], "defname", sc["name"], s), name) if sc["name"] != "-" else name
+        if sc.get("one"):
+            self.one_line_body(s, indent, ["class ", nm, ":"])
+            return
         self.r.head[s] = self.emit(indent, ["class ", nm, ":"])
         self.body(s, indent + 4)
         self.r.last[s] = len(self.r.lines)
+        roles = {self.p.scopes[c].get("role", "plain"): c for c in self.p.children[s]}
+        if "init" in roles or "call" in roles:
+            # instantiate the class (keyword arguments are tokens of __init__'s parameters),
+            # then call the instance (tokens of __call__'s parameters)
+            init = roles.get("init")
+            ln = self.emit(indent, ["_o%d = " % s, name, "("] + (self.role_args[init] if init else []) + [")"])
+            if init:
+                self.r.call_line[init] = ln
+            if "call" in roles:
+                self.r.call_line[roles["call"]] = self.emit(
+                    indent, ["_o%d(" % s] + self.role_args[roles["call"]] + [")"])
 
     # -- expression scopes (comprehension, lambda); `tail` is appended after the
     #    closing bracket ("," when nested as an element)
